@@ -94,7 +94,7 @@ def post(run, cases, impl, model):
     run.oblige("images are independent of the heap fill pattern (no uninitialised byte is saved)", nd == 0 or not run.violations, "%d cases differ" % nd)
 
 
-CFG = DC.Config("C08", D.ALL_KINDS, make_cmds, nsets=(7, 40), big=True, extra_eval=extra_eval, post=post, serial=True,
+CFG = DC.Config("C08", D.ALL_KINDS, make_cmds, nsets=(7, 18), big=True, extra_eval=extra_eval, post=post, serial=True,
                 rule="all 13 kinds: queries before and after save must agree, a second save must write the same bytes, a second independent build "
                      "must give a byte-identical image, the whole case list is run twice with different heap fill patterns (every image hash must "
                      "be equal: no uninitialised byte is saved), load -> save must reproduce the image or at least an image that loads to the same "
